@@ -68,6 +68,9 @@ func (p *Program) Verify(fn *ssa.Function, fc *FuncContract, mode Mode, primary,
 	if fc != nil && fc.AbstractMul {
 		c.abstractMul = true
 	}
+	if fc != nil && fc.MemConst {
+		c.memAsConst = true
+	}
 	e.analyzeCFG()
 	st := &State{mem: map[string]string{}, epoch: "0"}
 	c.declare("ctr0", "Int")
@@ -340,7 +343,12 @@ func (e *Encoder) block(b *ssa.BasicBlock) {
 				}
 				st.epoch = c.fresh("e")
 			}
+			var mergeKeys []string
 			for k := range keys {
+				mergeKeys = append(mergeKeys, k)
+			}
+			sort.Strings(mergeKeys) // (deterministic script: solver behaviour depends on assertion order)
+			for _, k := range mergeKeys {
 				srt := c.memSorts[k]
 				first := ins[0].st.get(c, k, srt)
 				same := true
@@ -451,7 +459,17 @@ func (e *Encoder) loopHeader(li *loopInfo, b *ssa.BasicBlock, st *State, pc stri
 		e.havocKeeping(st, fmt.Sprintf("loop %d body has unknown memory effects", li.ord), li.body)
 	} else {
 		// cells written at loop-invariant locations: havoc exactly those cells
-		for k, locs := range spec {
+		var specKeys, wholeKeys []string
+		for k := range spec {
+			specKeys = append(specKeys, k)
+		}
+		for k := range keys {
+			wholeKeys = append(wholeKeys, k)
+		}
+		sort.Strings(specKeys)
+		sort.Strings(wholeKeys)
+		for _, k := range specKeys {
+			locs := spec[k]
 			if _, whole := keys[k]; whole {
 				continue
 			}
@@ -465,7 +483,8 @@ func (e *Encoder) loopHeader(li *loopInfo, b *ssa.BasicBlock, st *State, pc stri
 				st.mem[k] = c.define("M_"+k, srt, fmt.Sprintf("(store %s %s %s)", cur, l.loc, v.S))
 			}
 		}
-		for k, t := range keys {
+		for _, k := range wholeKeys {
+			t := keys[k]
 			n := c.fresh("M_" + k)
 			srt := c.memSort(t)
 			if strings.HasPrefix(k, "arr_") {
@@ -1381,6 +1400,11 @@ func (e *Encoder) modClause(env *Env, m Expr, p string) (s string, err error) {
 			v := env.elab(call.Args[0])
 			intT := types.Typ[types.Int]
 			off := fmt.Sprintf("(soff %s)", v.S)
+			if sl, ok := v.T.Underlying().(*types.Slice); ok && !scalarElem(sl.Elem()) {
+				// aggregate elements: every cell below an element of the range (fields of struct elements)
+				c.declareElemRoot()
+				p = fmt.Sprintf("(elemroot %s)", p)
+			}
 			return fmt.Sprintf("(and (is_lelem %s) (= (ebase %s) (sbase %s)) %s %s)", p, p, v.S,
 				c.cmp("<=", intT, off, fmt.Sprintf("(eidx %s)", p)), c.cmp("<", intT, fmt.Sprintf("(eidx %s)", p), c.binopIdx("+", off, fmt.Sprintf("(scap %s)", v.S)))), nil
 		}
